@@ -140,6 +140,8 @@ class Parser:
         self.text = text
         self.semantics = semantics
         self.memo = {}
+        self.final = {}      # completed (rule, pos) results, see _rule
+        self.active = {}     # pos -> number of left-recursive heads growing
         self.farthest = 0
         res = self._rule(self.start, 0)
         if res is None:
@@ -153,16 +155,28 @@ class Parser:
         key = (name, pos)
         if key in self.memo:
             return self.memo[key]
+        if key in self.final:
+            return self.final[key]
         # seed growing for (direct or indirect) left recursion
         self.memo[key] = None
+        self.active[pos] = self.active.get(pos, 0) + 1
         best = None
-        while True:
-            res = self._body(name, pos)
-            if res is None or (best is not None and res[1] <= best[1]):
-                break
-            best = res
-            self.memo[key] = best
-        self.memo.pop(key, None)
+        try:
+            while True:
+                res = self._body(name, pos)
+                if res is None or (best is not None and res[1] <= best[1]):
+                    break
+                best = res
+                self.memo[key] = best
+        finally:
+            self.memo.pop(key, None)
+            self.active[pos] -= 1
+        # A result completed while no other head is growing at the same
+        # position cannot depend on a seed (rules invoked at a position never
+        # consult memo entries of smaller positions): keep it, so that nested
+        # parentheses are not re-parsed by every enclosing alternative.
+        if self.active[pos] == 0:
+            self.final[key] = best
         return best
 
     def _body(self, name, pos):
